@@ -332,7 +332,7 @@ func init() {
 		}
 		n := 1500
 		if thorough() {
-			n = 6000
+			n = 60000
 		}
 		var jobs []func()
 		for i := 0; i < n; i++ {
